@@ -208,6 +208,25 @@ func (o *Output) Rows() []Row {
 	return rows
 }
 
+// OnlyTypeColumnOff reports whether every chunk is rectangular except for the length of the sample type column.
+func (o *Output) OnlyTypeColumnOff() bool {
+	for _, c := range o.Chunks {
+		if s := c.Spl; s != nil {
+			n := len(s.MTimestampNS)
+			if len(s.MFingerprint) != n || len(s.MMessage) != n || len(s.MValue) != n || len(s.MTTLDays) != n {
+				return false
+			}
+		}
+		if t := c.Ts; t != nil {
+			n := len(t.MDate)
+			if len(t.MLabels) != n || len(t.MFingerprint) != n || len(t.MType) != n || len(t.MTTLDays) != n {
+				return false
+			}
+		}
+	}
+	return true
+}
+
 // TypeCount is the total length of the type column over all chunks (needed by the D4 classifier).
 func (o *Output) TypeCount() int {
 	n := 0
